@@ -301,7 +301,10 @@ def mon_c11(ex, info, col):
         working, sa = phs["allocated"]
         if not working:
             continue
-        cands = [tn for tn in info.tnames if su["tasks"][tn][0] in (S.T_READY, S.T_WORKING) and not info.is_auto(tn)]
+        # claimants: READY / WORKING tasks - and tasks the library still shows as NONE although every DECLARED start dependency holds (the links as the user
+        # declared them decide who competes, not the copies the library keeps of them)
+        cands = [tn for tn in info.tnames if not info.is_auto(tn) and (su["tasks"][tn][0] in (S.T_READY, S.T_WORKING)
+                 or (su["tasks"][tn][0] == S.T_NONE and not info.prefinished(tn) and info.preds[tn] and M.start_deps_hold(info, tn, su)))]
         if len(cands) < 2:
             continue
         keys = {tn: task_key(rule, info, tn, su, ex, t) for tn in cands}
@@ -435,6 +438,19 @@ def alloc_items(tier):
     for sp in F.mixed_wiring_specs():
         for rule in ("SPT", "LPT", "TSLACK"):
             out.append((sp, {"rule": rule, "max_time": F.seq_bound(sp) + 8}))
+    # the same start-to-start models with the links declared through extend_input_task_list / as plain integers
+    for wv in ((5, 2, 4), (3, 1, 2)):
+        fl = {"tasks": [{"name": F.tname(i), "work": float(w)} for i, w in enumerate(wv)], "links": [[0, 1, "SS"], [0, 2, "SS"]]}
+        base_ = F.with_teams(fl, "POOL2")
+        # T0 has a worker of its own; T1 and T2 share the other one
+        base_ = dict(base_, teams=[{"name": "TA", "targets": [0], "workers": [{"name": "a", "skills": {"T0": 1.0}, "cost": 1.0}]},
+                                    {"name": "TB", "targets": [1, 2], "workers": [{"name": "w", "skills": {"T1": 1.0, "T2": 1.0}, "cost": 1.0}]}])
+        for api in (None, "extend", "int", "extend-gen"):
+            for rule in ("SPT", "LPT", "TSLACK"):
+                out.append((dict(base_, link_api=api) if api else base_, {"rule": rule, "max_time": 20}))
+                if api:
+                    for j in ("1", "2"):  # only one of the two successors is declared the other way
+                        out.append((dict(base_, link_api_for={j: api}), {"rule": rule, "max_time": 20}))
     # IDs and names that are unique per kind only (teams and workplaces numbered alike; two tasks of one name under different teams)
     for sp in F.id_namespace_specs():
         for rule in ("SPT", "LPT", "TSLACK"):
